@@ -58,12 +58,22 @@ def check(run, prog, tier):
         found = []
         for p in paths:
             for e in p.events:
-                if e.kind == "call" and e.result is not None and layout.unpack_call(eng, e.result) is not None and e.result not in found:
-                    found.append(e.result)
+                if e.kind == "call" and e.result is not None and layout.unpack_call(eng, e.result) is not None:
+                    if e.result not in found:
+                        found.append(e.result)
+                    break  # the first header unpack of the path (a reader that loops is judged by the rule below)
         if len(found) != 1:
             raise AnalysisError(f"{what}: {len(found)} distinct unpack calls (expected one header unpack)")
         return found[0]
 
+    # one call of read() hands out one message: a path that draws more than header + payload from the stream has consumed
+    # a message without returning it (the datagram decoder would have delivered it)
+    greedy = [p for p in rpaths if len([e for e in p.events if e.kind == "call" and e.attrname == "readexactly" and e.recv == rdr]) > 2]
+    run.ob("S2", f"{read.qual}:one-message-per-call", not greedy, loc(read),
+           "every path of read() draws at most one header and one payload from the stream" if not greedy else
+           f"a path of read() calls readexactly {len([e for e in greedy[0].events if e.kind == 'call' and e.attrname == 'readexactly'])} times "
+           f"[{greedy[0].describe()[:90]}]: a message is read from the stream and dropped, the sequence differs from what datagram decoding yields")
+    rpaths = [p for p in rpaths if p not in greedy]
     pu = the_unpack(ppaths, parse.qual)
     ru = the_unpack(rpaths, read.qual)
     pf, _ = layout.unpack_call(eng, pu)
